@@ -327,6 +327,7 @@ def _run_wrapper(orig):
             if ST.count_only:
                 inj.sites = []
         sp = ST.stream_plan.get((dtid, k))
+        sf0 = len(snap0.stdout.fired) if isinstance(snap0.stdout, SimStream) else 0
         if sp and isinstance(snap0.stdout, SimStream):
             snap0.stdout.arm(sp)
         try:
@@ -350,6 +351,8 @@ def _run_wrapper(orig):
             raise
         finally:
             if isinstance(snap0.stdout, SimStream):
+                # terminal faults that fired during *this* execution
+                rec['stream_fired'] = [('stream:' + e_, None, None, k_) for k_, e_ in snap0.stdout.fired[sf0:]]
                 snap0.stdout.disarm()
             PEER.ctx.pop()
             PEER.run_stdout.pop()
